@@ -1,4 +1,5 @@
 import Proofs.Blade
+import Proofs.Fund
 import Props.C05
 
 /-! # C09 — blade subspace operations: the algebraic core
@@ -15,6 +16,21 @@ variable {R : Type} [CommRing R] (n : Nat) (sig : Nat → R)
 /-- for a vector `x` and any multivector `B`: `x * B = x ⌋ B + x ∧ B` (with the coded `lcmt` / `omt` tables) -/
 theorem vector_product_split (x B : CMV n R) (hx : IsHom n 1 x) :
     gmul n sig x B = mmul n sig lcmtCheck x B + mmul n sig omtCheck x B := vector_mul_split n sig x B hx
+
+/-- the companion identity with the grade involution: `B̂ x = x ∧ B − x ⌋ B` (any multivector `B`) -/
+theorem involuted_product_split (x B : CMV n R) (hx : IsHom n 1 x) :
+    gmul n sig (gi n B) x = mmul n sig omtCheck x B - mmul n sig lcmtCheck x B := gi_mul_vector n sig x B hx
+
+/-- hence for a `g`-blade (any homogeneous `B`): `2 (x ∧ B) = x B + (−1)^g B x` … -/
+theorem vector_blade_wedge (g : Nat) (x B : CMV n R) (hx : IsHom n 1 x) (hB : IsHom n g B) :
+    wedge n x B + wedge n x B = gmul n sig x B + (sgn g : R) • gmul n sig B x := two_wedge_vector_hom n sig g x B hx hB
+/-- … `2 (x | B) = x B − (−1)^g B x` with the coded inner-product table (`g ≥ 1`) … -/
+theorem vector_blade_inner (g : Nat) (hg : 1 ≤ g) (x B : CMV n R) (hx : IsHom n 1 x) (hB : IsHom n g B) :
+    mmul n sig imtCheck x B + mmul n sig imtCheck x B = gmul n sig x B - (sgn g : R) • gmul n sig B x :=
+  two_inner_vector_hom n sig g hg x B hx hB
+/-- … and with the vector on the right `B | x = (−1)^{g+1} (x ⌋ B)` -/
+theorem blade_vector_inner (g : Nat) (hg : 1 ≤ g) (x B : CMV n R) (hx : IsHom n 1 x) (hB : IsHom n g B) :
+    mmul n sig imtCheck B x = (-(sgn g : R)) • mmul n sig lcmtCheck x B := blade_inner_vector n sig g hg x B hx hB
 
 /-- for invertible `B`: `x = (x ⌋ B) B⁻¹ + (x ∧ B) B⁻¹`: `project(x)` and its remainder sum to `x` -/
 theorem project_plus_remainder (x B Binv : Cl n sig) (hx : IsHom n 1 x) (hB : B * Binv = 1) :
